@@ -775,6 +775,10 @@ func RunSession(spec *SessSpec) *Trace {
 			if ck.TCommitCall != 0 {
 				tr.Checks = append(tr.Checks, ck)
 			}
+		case "absorbedcommit": // Commit() after traffic that only consisted of absorbed (reserved-key) events
+			w0 := s.writeCount()
+			full.Commit()
+			env.Log.Add(evlog.Rec{K: "ctl.absorbedcommit", VB: -1, A: uint64(s.writeCount() - w0)})
 		case "waitcommits":
 			hx.WaitFor(10*time.Second, func() bool { return env.Log.Count("ctl.commit.call") == env.Log.Count("ctl.commit.ret") })
 		case "close":
